@@ -1,4 +1,5 @@
 import re
+import os
 
 from shexer.core.profiling.class_profiler import RDF_TYPE_STR
 
@@ -17,6 +18,16 @@ _EXAMPLE_CONSTRAINT_TEMPLATE = '// rdfs:comment {} ;'
 _EXAMPLE_INSTANCE_TEMPLATE = " // rdfs:comment {}"
 
 _INIT_URI_PATTERN = re.compile("http[s]?\://")
+
+_LINES_BUFFER_SIZE = 5000
+
+
+def _lines_buffer_size():
+    # Verification hook (off by default): lets a test harness exercise the buffer flush path
+    # with small outputs. Only honoured when SHEXER_VERIF=1.
+    if os.environ.get("SHEXER_VERIF") == "1":
+        return int(os.environ.get("SHEXER_VERIF_FLUSH_LINES", _LINES_BUFFER_SIZE))
+    return _LINES_BUFFER_SIZE
 
 
 class ShexSerializer(object):
@@ -99,7 +110,7 @@ class ShexSerializer(object):
 
     def _write_line(self, a_line, indent_level=0):
         self._lines_buffer.append(self._indentation_spaces(indent_level) + a_line + "\n")
-        if len(self._lines_buffer) >= 5000:
+        if len(self._lines_buffer) >= _lines_buffer_size():
             self._write_lines_buffer()
             self._lines_buffer = []
 
